@@ -51,7 +51,7 @@ def gen(ctx):
         if interior:
             for _ in range(rng.choice([0, 0, 1, 2, 3])):
                 i, j = rng.choice(interior)
-                grains.append([i, j, rng.randint(1, max(1, T))])
+                grains.append([i, j, rng.choice([0, rng.randint(1, max(1, T)), rng.randint(1, max(1, T)), T + 3])])     # 0 and > T never fire
         H = rng.choice([1, 1, 2])
         hist = [[[0] * C for _ in range(R)] for _ in range(H - 1)] + [g]
         yield dict(kind="sp", hist=hist, closed=int(closed), grains=grains, T=T, dtype=rng.choice(["int32", "int64", "uint8", "int16", "uint16", "float64"]))
